@@ -335,3 +335,17 @@ Proof.
   split; [exact (proj1 T13a_example)|]. split; [simpl; auto|]. split; [|vm_compute; reflexivity].
   intros r Hr. simpl in Hr. repeat destruct Hr as [<-|Hr]; try reflexivity. contradiction.
 Qed.
+
+(* ----------------------------------- the arithmetic used for formulas is exact *)
+(* [dval a E] = a / 2^E (an integer when E <= exponent of a): the operations on cells used by the
+   closed formula family of the stream (feval) are the operations on the numbers they denote *)
+Theorem T13b_dyadic_arithmetic_exact :
+  (forall a b E, E <= snd a -> E <= snd b -> dval (dadd a b) E = dval a E + dval b E) /\
+  (forall a b E, E <= snd a -> E <= snd b -> dval (dsub a b) E = dval a E - dval b E) /\
+  (forall a b Ea Eb, Ea <= snd a -> Eb <= snd b -> dval (dmul a b) (Ea + Eb) = dval a Ea * dval b Eb) /\
+  (forall a b E, E <= snd a -> E <= snd b -> (dleb a b = true <-> dval a E <= dval b E)) /\
+  (forall a b E, E <= snd a -> E <= snd b -> (dltb a b = true <-> dval a E < dval b E)) /\
+  (forall a b E, canonical a -> canonical b -> E <= snd a -> E <= snd b -> (ceqb a b = true <-> dval a E = dval b E)) /\
+  (forall a b, canonical (dadd a b) /\ canonical (dmul a b)).
+Proof. exact arithmetic_exact. Qed.
+Print Assumptions T13b_dyadic_arithmetic_exact.
